@@ -353,7 +353,8 @@ def malform(rng, cells, basis):
     for r in rows:
         others = [c for c in cells if not any(c is y for y in r)]
         if kind == "remove" and len(r) >= 2:
-            i = rng.randrange(0, len(r) - 1)            # never the last cell (that leaves a complete chain)
+            # never the last cell (that leaves a complete chain); interior cells preferred
+            i = rng.randrange(1, len(r) - 1) if len(r) >= 3 and rng.random() < 0.7 else rng.randrange(0, len(r) - 1)
             return others + r[:i] + r[i + 1:], "link_removed_first" if i == 0 else "link_removed"
         if kind == "shift" and len(r) >= 2:
             i = rng.randrange(1, len(r))
@@ -439,26 +440,32 @@ def gen_cases(ctx, n_total):
         layout = layouts[k % len(layouts)] if rng.random() < 0.8 else rng.choice(layouts[:4])
         values = vkinds[(k // 7) % len(vkinds)]
         basis = "inc" if k % 3 == 0 else "cum"
+        u = rng.random()
+        stream = "malformed" if u < (0.45 if basis == "inc" else 0.12) else ("exotic" if u > 0.88 else "valid")
         n_slices = rng.choice([1, 1, 2, 3, 4])
         same_fields = rng.random() < 0.75
         fields = rng.sample(FIELDS, rng.randint(1, 3))
         if rng.random() < 0.6 and CARRY not in fields:
             fields[rng.randrange(len(fields))] = CARRY
             fields = list(dict.fromkeys(fields))
+        n_lags = rng.randint(1, 4)
+        if stream == "malformed":
+            n_lags = rng.randint(3, 5)
+            if layout in ("single_lag", "holey"):
+                layout = "regular"
         kw = dict(layout=layout, basis=basis, n_slices=n_slices, values=values, fields=fields,
-                  n_periods=rng.randint(1, 3), n_lags=rng.randint(1, 4), same_fields=same_fields,
+                  n_periods=rng.randint(1, 3), n_lags=n_lags, same_fields=same_fields,
                   n_samples=rng.choice([1, 2, 3]))
         if basis == "cum" and rng.random() < 0.12:
             kw["cls"] = Cell
         cells, info = g.cells(**kw)
-        stream = rng.random()
         label = "valid"
-        if stream < 0.30:
+        if stream == "malformed":
             m = malform(rng, cells, basis)
             if m is None:
                 continue
             cells, label = m
-        elif stream < 0.42:
+        elif stream == "exotic":
             m = exotic(rng, cells, basis)
             if m is None:
                 continue
@@ -661,7 +668,7 @@ def run(ctx):
     ctx.prove_static("Props/C04.v", timeout=900)
     translate_and_prove(ctx)
     # 2. cases
-    n_total = 720 if ctx.quick else 6000
+    n_total = 960 if ctx.quick else 9600
     cases = [c for c in gen_cases(ctx, n_total)]
     keep = []
     for c in cases:
@@ -670,7 +677,7 @@ def run(ctx):
             continue
         keep.append(c)
     cases = keep
-    problems, n = correspondence(ctx, cases, per_file=45 if ctx.quick else 120)
+    problems, n = correspondence(ctx, cases, per_file=60 if ctx.quick else 200)
     ctx.count(evaluations=4 * n, traces=2 * n)
     ctx.log(f"correspondence: {n} cases, {len(problems)} failing verdicts")
     ctx.obligation("correspondence model == implementation and executable spec on implementation outputs",
